@@ -62,6 +62,12 @@ def atoms_modes(doc):
         out = []
         render(doc, False, out)
         res[name] = out
+    # the fragment inside an enclosing group that is laid out flat (possible only when the fragment holds no hard line break at all)
+    render.prefer_flat = True
+    out = []
+    render(doc, True, out)
+    if ('nl',) not in out and out != res.get('flat-where-possible'):
+        res['enclosing-group-flat'] = out
     return res
 
 
